@@ -340,6 +340,15 @@ impl<'p> ThunkData<'p> {
         *state = ThunkState::Done(value);
     }
 
+    /// Reverts a thunk whose evaluation was aborted back to its pending state.
+    #[inline]
+    pub(super) fn restore_pending(&self, pending: PendingThunk<'p>) {
+        let mut state = self.state.borrow_mut();
+        if matches!(*state, ThunkState::InProgress) {
+            *state = ThunkState::Pending(pending);
+        }
+    }
+
     #[inline]
     pub(super) fn get_value(&self) -> Option<ValueData<'p>> {
         match *self.state.borrow() {
@@ -368,6 +377,7 @@ impl GcTrace for ThunkState<'_> {
     }
 }
 
+#[derive(Clone)]
 pub(super) enum PendingThunk<'p> {
     Expr {
         expr: &'p ir::Expr<'p>,
